@@ -1,3 +1,5 @@
 module verif/vstage
 
-go 1.26
+go 1.26.0
+
+require golang.org/x/tools v0.50.0
